@@ -8,6 +8,8 @@ def main():
     run = Run("C02")
     cfgs = ["MC_BigBed_t1.cfg", "MC_BigBed_t2.cfg", "MC_BigBed_q3.cfg"] if run.thorough else ["MC_BigBed_q1.cfg", "MC_BigBed_q2.cfg", "MC_BigBed_q3.cfg"]
     beh = emit(run, "MC_BigBed", cfgs)
+    # deeper layouts by random walks: 5..8 items over two chromosomes, one or two per block, fan-out 2 => 3- and 4-level indexes
+    beh += emit_sim(run, "MC_BigBed", "MC_BigBed_deep.cfg", 3000 if run.thorough else 300)
     sizes = lambda b: [b["L"]] * b["NC"]
 
     def extra(b, k, rng):
